@@ -617,11 +617,25 @@ def main(run):
                                   "replay": {"kind": "unit", "fn": fn.__name__, "arg": s}})
 
         # -- documents on disk ----------------------------------------------------------
-        npairs = 15 if quick else 120
+        npairs = 18 if quick else 120
         files, ignored_pairs = [], []
         for i in range(npairs):
-            k = i % 5
-            if k == 4:
+            k = i % 6
+            if k == 5:
+                # differing ONLY in comments below the root: one added, removed or reworded (the xml formatter drops
+                # comments before it diffs; --check must still report the difference)
+                L = gen.gen_tree(rng, rng.randint(3, 7), ns=False, comments=False, texts=False)
+                R = etree.fromstring(etree.tostring(L))
+                host = rng.choice([e for e in L.iter() if isinstance(e.tag, str)])
+                pos = rng.randint(0, len(host))
+                how = rng.choice(["add", "remove", "reword"])
+                idx = [e for e in L.iter()].index(host)
+                rhost = [e for e in R.iter()][idx]
+                if how != "add":
+                    host.insert(pos, etree.Comment("a remark"))
+                if how != "remove":
+                    rhost.insert(pos, etree.Comment("a remark" if how == "add" else "another remark entirely, nothing alike 12345"))
+            elif k == 4:
                 # differing only in the value / presence of attribute k (for --ignored-attributes k)
                 L = gen.gen_tree(rng, rng.randint(2, 7), ns=False)
                 R = etree.fromstring(etree.tostring(L))
